@@ -5,7 +5,8 @@ find_G_and_neighbours) of wannierberri/w90files/bkvectors.py, observed through t
 wk, bk_cart, bk_grid, neighbours, G, kpt_grid of the returned object.
 
 Oracles (none of them uses the shell search or the weight solver of the library):
-  (B1)     sum_b w_b b_i b_j = delta_ij to 1e-8, with b recomputed by the harness from bk_grid and the
+  (B1)     sum_b w_b b_i b_j = delta_ij to 1e-8 (a residual between 1e-8 and the default bk_complete_tol gets its own
+           mechanism: an incomplete shell set accepted by the threshold), with b recomputed by the harness from bk_grid and the
            mesh basis recip_lattice/mp_grid (and bk_cart == that product);
   (+-)     the set {(b, w)} is closed under b -> -b with equal weights, no repeated and no zero vector;
   (shells) brute force in the harness: every vector n.basis of the mesh lattice inside a box that provably
@@ -35,7 +36,8 @@ RHOMBO_X = [0.1, 0.2, 0.25, -0.2, -0.1, 0.4, 0.05, 0.3]  # rows (1,x,x): .25 = f
 LEN_EQ = 1e-9    # two lengths closer than this are "equal" (rounding noise is 1e-15)
 LEN_TIE = 1e-5   # closer than this but not equal: tie zone of the library's kmesh_tol=1e-7 -> skipped
 B1_TOL = 1e-8
-SEARCH_SUPERCELL = 2   # documented default of from_kpoints / find_bk_vectors (index box +-2*mp_grid)
+BK_COMPLETE_TOL = 1e-5  # documented default of from_kpoints: Frobenius residual below which a shell set is accepted
+SEARCH_SUPERCELL = 2  # documented default of from_kpoints / find_bk_vectors (index box +-2*mp_grid)
 
 
 def make_lattice(rng, kind, mp, mode):
@@ -192,15 +194,27 @@ def case(ctx, rng, idx, state):
               what="bk_cart", witness=wit2)
     # ---- (B1)
     B = np.einsum("b,bi,bj->ij", wk, b_h, b_h)
-    ctx.close("B1:sum_w_b_b!=identity", B, np.eye(3), rtol=0.0, atol=B1_TOL, what="completeness relation",
-              witness=wit2)
-    B2 = np.einsum("b,bi,bj->ij", wk, bc, bc)
-    ctx.close("B1:sum_w_b_b!=identity", B2, np.eye(3), rtol=0.0, atol=B1_TOL, what="completeness relation (bk_cart)",
-              witness=wit2)
+    res_frob = float(np.linalg.norm(B - np.eye(3)))
+    res_max = float(np.abs(B - np.eye(3)).max())
+    if B1_TOL < res_max and res_frob <= BK_COMPLETE_TOL:
+        # not rounding (that is 1e-13): an INCOMPLETE set of shells whose least-squares residual happens to be
+        # below the library's acceptance threshold bk_complete_tol (default 1e-5) - own mechanism
+        ctx.ev()
+        ctx.dev("B1:incomplete_shell_set_accepted_within_bk_complete_tol", res_max / B1_TOL)
+        ctx.violation("B1:incomplete_shell_set_accepted_within_bk_complete_tol",
+                      f"max|sum w b b - 1| = {res_max:.3e} (Frobenius {res_frob:.3e}) > {B1_TOL:g}, accepted because it "
+                      f"is below the default bk_complete_tol={BK_COMPLETE_TOL:g}; {len(wk)} b vectors", wit2)
+        bad_b1 = True
+    else:
+        bad_b1 = not ctx.close("B1:sum_w_b_b!=identity", B, np.eye(3), rtol=0.0, atol=B1_TOL,
+                               what="completeness relation", witness=wit2)
+        B2 = np.einsum("b,bi,bj->ij", wk, bc, bc)
+        ctx.close("B1:sum_w_b_b!=identity", B2, np.eye(3), rtol=0.0, atol=B1_TOL,
+                  what="completeness relation (bk_cart)", witness=wit2)
 
     # ---- (+-) closure, no repeated / zero vectors
     index = {}
-    bad = False
+    bad = bad_b1
     for ib, b in enumerate(bg.tolist()):
         t = tuple(b)
         if t in index or t == (0, 0, 0):
